@@ -70,6 +70,7 @@ class Executor(ExprMixin, StmtMixin, CallMixin, ContractMixin):
         self.contract_env = None
         self.heap_reads = None
         self.exists_witness = None
+        self.extra_inst_terms = []
         self._spec_deps = {}
         self.asserts_seen = set()
         self.stmt_ordinals = {}
@@ -221,6 +222,9 @@ class Executor(ExprMixin, StmtMixin, CallMixin, ContractMixin):
             self.pre_state = st.copy()
             self.old_state = self.pre_state
             self.base_state = st.copy()
+            for ex_ in c.inst:
+                v = self.eval_contract_expr(st, ex_, None, self.pre_state, want_bool=False)
+                self.extra_inst_terms.append(v.t)
             # frame
             self.frame = []
             for ref, field, guard in self.eval_locations(st, c.modifies, st.env):
